@@ -162,11 +162,12 @@ def ref_commission(spec, price, qty):
 
 
 class MPos(object):
-    __slots__ = ('qty', 'last')
+    __slots__ = ('qty', 'last', 'clock')
 
     def __init__(self):
         self.qty = 0
         self.last = None
+        self.clock = 0
 
 
 class MPortfolio(object):
@@ -187,13 +188,14 @@ def fail(clause, detail, signature=None):
 
 
 class BrokerMachine(object):
-    def __init__(self, fee=('zero',)):
+    def __init__(self, fee=('zero',), base='USD'):
         from qstrader.broker.simulated_broker import SimulatedBroker
         from qstrader.exchange.simulated_exchange import SimulatedExchange
         self.fee = tuple(fee)
         self.dh = StubDataHandler()
         self.exchange = SimulatedExchange(INSTANTS[0])
-        self.broker = SimulatedBroker(INSTANTS[0], self.exchange, self.dh, account_id='acct',
+        self.base = base
+        self.broker = SimulatedBroker(INSTANTS[0], self.exchange, self.dh, account_id='acct', base_currency=base,
                                       fee_model=make_fee(self.fee))
         # model
         self.master = Fraction(0)
@@ -222,7 +224,7 @@ class BrokerMachine(object):
 
     def touched(self, ev):
         """Portfolios whose history can have grown in the step that executed ev."""
-        if ev[0] in ('pf_sub', 'pf_wd'):
+        if ev[0] in ('pf_sub', 'pf_wd', 'pf_direct_sub'):
             return {ev[1]}
         if ev[0] == 'tick':
             return set(pid for pid, _ in self.step_txns)
@@ -269,8 +271,15 @@ class BrokerMachine(object):
             elif self.clock < self.pfs[ev[1]].clock:
                 expect_exc = ValueError
         elif kind == 'tick':
-            if any(ev[1] < p.clock for p in self.pfs.values()):
-                expect_exc = ValueError        # a clock update earlier than a portfolio clock is refused
+            if any(ev[1] < p.clock or any(ev[1] < mp.clock for mp in p.pos.values()) for p in self.pfs.values()):
+                expect_exc = ValueError        # a clock update earlier than a portfolio / position clock is refused
+        elif kind == 'mark_at':
+            p = self.pfs.get(ev[1])
+            if p is None:
+                raise HarnessError('mark_at on unknown portfolio in alphabet')
+            mp = p.pos.get(ev[2])
+            if mp is not None and (ev[4] < p.clock or ev[4] < mp.clock):
+                expect_exc = ValueError
         elif kind == 'pf_direct_sub':
             if ev[1] not in self.pfs:
                 raise HarnessError('pf_direct_sub on unknown portfolio in alphabet')
@@ -313,6 +322,8 @@ class BrokerMachine(object):
                 b.portfolios[ev[1]].update_market_value_of_asset(ev[2], float(ev[3]), self.now())
             elif kind == 'pf_direct_sub':
                 b.portfolios[ev[1]].subscribe_funds(INSTANTS[ev[3]], float(ev[2]))
+            elif kind == 'mark_at':
+                b.portfolios[ev[1]].update_market_value_of_asset(ev[2], float(ev[3]), INSTANTS[ev[4]])
             else:
                 raise HarnessError('unknown event %r' % (ev,))
         except HarnessError:
@@ -388,6 +399,12 @@ class BrokerMachine(object):
             p = self.pfs[ev[1]]
             if ev[2] in p.pos:
                 p.pos[ev[2]].last = F(ev[3])
+                p.pos[ev[2]].clock = max(p.pos[ev[2]].clock, self.clock)
+        elif kind == 'mark_at':
+            p = self.pfs[ev[1]]
+            if ev[2] in p.pos:
+                p.pos[ev[2]].last = F(ev[3])
+                p.pos[ev[2]].clock = ev[4]
         elif kind == 'tick':
             fails.extend(self._model_tick(ev[1]))
         return fails
@@ -401,6 +418,7 @@ class BrokerMachine(object):
             for asset, mp in p.pos.items():
                 bid, ask = F(tab[asset][0]), F(tab[asset][1])
                 mp.last = (bid + ask) / 2
+                mp.clock = j
         actual = list(self.step_txns)
         # ---- C04: which orders fill, fully, once, in which order
         expected = []
@@ -470,6 +488,7 @@ class BrokerMachine(object):
                 mp = p.pos[t.asset] = MPos()
             mp.qty += int(t.quantity)
             mp.last = price
+            mp.clock = j
             if mp.qty == 0:
                 del p.pos[t.asset]
             if qty > 0:
@@ -485,7 +504,8 @@ class BrokerMachine(object):
 
     def observe(self):
         b = self.broker
-        o = {'master': b.get_account_cash_balance(b.base_currency), 'pf': OrderedDict()}
+        o = {'master': b.get_account_cash_balance(b.base_currency), 'pf': OrderedDict(),
+             'other_currencies': {c: v for c, v in dict(b.get_account_cash_balance()).items() if c != b.base_currency}}
         for pid in self.pfs:
             d = b.get_portfolio_as_dict(pid)
             o['pf'][pid] = {
@@ -501,7 +521,7 @@ class BrokerMachine(object):
     @staticmethod
     def _plain(o):
         """observation -> flat dict of comparable values (for exact before/after comparison)"""
-        out = {'master': o['master']}
+        out = {'master': o['master'], 'other_currencies': repr(sorted(o.get('other_currencies', {}).items()))}
         for pid, po in o['pf'].items():
             out['%s.cash' % pid] = po['cash']
             out['%s.holdings' % pid] = repr(sorted((a, sorted(r.items())) for a, r in po['dict'].items()))
@@ -520,6 +540,8 @@ class BrokerMachine(object):
         # ---- C01 cash
         if not close(o['master'], self.master):
             fails.append(fail('C01.master_cash', {'event': ev, 'impl': o['master'], 'ref': float(self.master)}))
+        if any(v != 0 for v in o['other_currencies'].values()):
+            fails.append(fail('C01.other_currency_balance', {'event': ev, 'base': self.base, 'balances': o['other_currencies']}))
         for pid, p in self.pfs.items():
             po = o['pf'][pid]
             if not close(po['cash'], p.cash):
@@ -646,13 +668,13 @@ class BrokerMachine(object):
                 pos.append((asset, vals))
             parts.append((pid, p.clock, str(getattr(port, 'current_dt', '')), round(float(port.cash), 7), tuple(sorted(pos)),
                           tuple((a, q) for a, q, _ in self.pending_impl(pid)),
-                          str(p.cash), tuple(sorted((a, mp.qty, str(mp.last)) for a, mp in p.pos.items())),
+                          str(p.cash), tuple(sorted((a, mp.qty, str(mp.last), mp.clock) for a, mp in p.pos.items())),
                           tuple((a, q) for a, q, _ in p.pending)))
         return digest(tuple(parts))
 
 
-def build(fee, hist, check_last=False):
-    m = BrokerMachine(fee)
+def build(fee, hist, check_last=False, base='USD'):
+    m = BrokerMachine(fee, base)
     fails = []
     n = len(hist)
     for i, ev in enumerate(hist):
@@ -680,7 +702,8 @@ def build(fee, hist, check_last=False):
 class BrokerSpec(object):
     """BFS harness over BrokerMachine for one property (own = clause prefix it reports)."""
 
-    def __init__(self, prop, fee, initials, alphabet, df_check=False, label=''):
+    def __init__(self, prop, fee, initials, alphabet, df_check=False, label='', base='USD'):
+        self.base = base
         self.prop = prop
         self.own = prop + '.'
         self.fee = tuple(fee)
@@ -690,10 +713,10 @@ class BrokerSpec(object):
         self.label = label
 
     def case(self, hist):
-        return {'harness': 'broker', 'fee': list(self.fee), 'history': [list(e) for e in hist]}
+        return {'harness': 'broker', 'fee': list(self.fee), 'base': self.base, 'history': [list(e) for e in hist]}
 
     def _eval(self, hist):
-        m, fails = build(self.fee, hist, check_last=True)
+        m, fails = build(self.fee, hist, check_last=True, base=self.base)
         if self.df_check and hist:
             fails = fails + m.compare_history_df(only=m.touched(hist[-1]))
         own = [dict(f, case=self.case(hist)) for f in fails if f['clause'].startswith(self.own)]
@@ -715,7 +738,7 @@ class BrokerSpec(object):
         return self._eval(hist)[1]
 
     def expand(self, hist):
-        m0, _ = build(self.fee, hist, check_last=False)
+        m0, _ = build(self.fee, hist, check_last=False, base=self.base)
         outs = []
         for ev in self.alphabet(m0):
             _, key, own, tags = self._eval(hist + (tuple(ev),))
@@ -725,7 +748,7 @@ class BrokerSpec(object):
 
 def replay_broker(case, own_prefix):
     hist = tuple(tuple(e) for e in case['history'])
-    m, fails = build(tuple(case['fee']), hist, check_last=True)
+    m, fails = build(tuple(case['fee']), hist, check_last=True, base=case.get('base', 'USD'))
     if case.get('df_check') and hist:
         fails = fails + m.compare_history_df(only=m.touched(hist[-1]))
     return [f for f in fails if f['clause'].startswith(own_prefix)]
